@@ -521,6 +521,9 @@ func Run(c *ev.Ctx) {
 
 	renameOp := cmdlib.RegService(n1, cmdlib.SvcSpec{ID: "web", Name: "api", Port: 80})
 	repointOp := cmdlib.RegService(n1, cmdlib.SvcSpec{ID: "web-proxy-1", Name: "web-proxy", Kind: structs.ServiceKindConnectProxy, DestName: "db", Upstreams: []string{"web"}, Port: 21000})
+	// an instance re-registered in place under another non-typical kind (same family of upstream behaviour)
+	rekindOp1 := cmdlib.RegService(n1, cmdlib.SvcSpec{ID: "tgw", Name: "tgw", Kind: structs.ServiceKindIngressGateway, Port: 8443})
+	rekindOp2 := cmdlib.RegService(n1, cmdlib.SvcSpec{ID: "web-proxy-1", Name: "web-proxy", Kind: structs.ServiceKindMeshGateway, Port: 21000})
 	alpha := []world.Op{
 		cmdlib.RegNode(n1), cmdlib.RegNode(n2), cmdlib.RegNode(n1b),
 		cmdlib.RegService(n1, web), cmdlib.RegService(n2, web2), cmdlib.RegService(n1, web3),
@@ -545,7 +548,7 @@ func Run(c *ev.Ctx) {
 		cmdlib.RegService(n1p, cmdlib.SvcSpec{Name: "web", Port: 80}), cmdlib.RegService(n1p, cmdlib.SvcSpec{ID: "web-2", Name: "web", Port: 80}),
 		cmdlib.DeregService("n1", "web", "p1"), cmdlib.DeregNode("n1", "p1"),
 		// an instance ID re-registered under another service name / a proxy re-pointed to another destination
-		renameOp, repointOp,
+		renameOp, repointOp, rekindOp1, rekindOp2,
 	}
 	seedProxies := []world.Op{cmdlib.EnableVIPs(), cmdlib.RegNode(n1), cmdlib.RegNode(n2), cmdlib.RegService(n1, web), cmdlib.RegService(n2, web2),
 		cmdlib.RegService(n1, proxy1), cmdlib.RegService(n2, proxy2), cmdlib.RegService(n1, db)}
@@ -554,7 +557,9 @@ func Run(c *ev.Ctx) {
 		cmdlib.RegService(n1, tgw), cmdlib.RegService(n2, igw), cmdlib.RegService(n1, web), cmdlib.RegService(n2, web2), cmdlib.RegService(n1, db)}
 	seedPeer := []world.Op{cmdlib.RegNode(n1), cmdlib.RegService(n1, web), cmdlib.RegCheck(n1, sc1), cmdlib.RegService(n1p, cmdlib.SvcSpec{Name: "web", Port: 80}),
 		cmdlib.RegService(n1p, cmdlib.SvcSpec{ID: "web-2", Name: "web", Port: 80}), cmdlib.CoordinateUpdate("n1", 0.5)}
-	seeds := [][]world.Op{nil, seedProxies, seedGW, seedPeer}
+	// the wildcard gateway's last instance of "web" is about to go while an ordinary service-defaults entry for it exists
+	seedLast := append(append([]world.Op{}, seedGW...), cmdlib.SvcDefaults("web", "http").Upsert(), cmdlib.DeregService("n2", "web-2", ""))
+	seeds := [][]world.Op{nil, seedProxies, seedGW, seedPeer, seedLast}
 
 	depth := 2
 	if !quick {
@@ -570,7 +575,7 @@ func Run(c *ev.Ctx) {
 			// signatures so that the same oracles stay sharp everywhere else.
 			tViolate := t.Violate
 			for _, h := range t.Hist {
-				if h == renameOp.Name || h == repointOp.Name {
+				if h == renameOp.Name || h == repointOp.Name || h == rekindOp1.Name || h == rekindOp2.Name {
 					tViolate = func(sig, msg string) {
 						t.Violate(sig+":history-renames-an-instance-or-repoints-a-proxy", msg)
 					}
